@@ -953,15 +953,32 @@ theorem hout_stopNext {P : InMsg → Prop} (s : Sess) (hs : StashOK P s.st) : HO
     | exact ⟨RelF.refl s, hs⟩
 
 /-- what the policy needs to know about an event -/
-def EvOK (N : Obs → Prop) (S : Store → Store → Prop) (P : InMsg → Prop) : Ev → Prop
+def EvOK (N : Obs → Prop) (S : Store → Store → Prop) (P : InMsg → Prop) (cfg : Cfg) : Ev → Prop
   | .incomingMsg m => ∀ x, m = some x → P x
   | .arrive m => P m
   | .send m => ResetOK N S ∨ resetLogon m = false
   | .sessionTime _ sm => sm = true ∨ ResetOK N S
+  | .resetTime _ => ResetOK N S ∨ cfg.resetSeqTime = none
   | _ => True
 
+/-- CheckResetTime: nothing when ResetSeqTime is not configured; otherwise at most the reset Logon -/
+theorem relF_checkResetTime (s : Sess) (now : Int) (h : ResetOK N S ∨ s.cfg.resetSeqTime = none) :
+    RelF N S s (checkResetTime s now) := by
+  have hset : ∀ x : Sess, RelF N S x (x.setLastChecked now) := fun x => RelF.of_eq rfl rfl rfl rfl rfl
+  unfold checkResetTime
+  split
+  · exact RelF.refl s
+  · rename_i rs hrs
+    rcases h with hro | hno
+    · repeat' split
+      all_goals (try dsimp only)
+      all_goals first
+        | exact hset _
+        | exact (relF_sendLogonInReplyTo _ _ (Or.inl hro)).trans (hset _)
+    · rw [hno] at hrs; cases hrs
+
 theorem good_stepCore {P : InMsg → Prop} (s : Sess) (e : Ev) (hP : PoolHyp N S P s.cfg) (hc : CfgHyp N S s.cfg) (h : PoolInv P s)
-    (he : EvOK N S P e) : Good N S P s (stepCore s e).1 := by
+    (he : EvOK N S P s.cfg e) : Good N S P s (stepCore s e).1 := by
   obtain ⟨hS, hD, hI, hC⟩ := rel_mutual s.cfg hP hc (fuelOf s)
   unfold stepCore
   simp only []
@@ -1022,5 +1039,6 @@ theorem good_stepCore {P : InMsg → Prop} (s : Sess) (e : Ev) (hP : PoolHyp N S
     · exact g1.relF (relF_sendQueued _)
     · exact g1.relF (RelF.of_eq rfl rfl rfl rfl rfl)
   | sessionTime r sm => exact hC s r sm rfl h he
+  | resetTime now => exact (Good.refl h).relF (relF_checkResetTime s now he)
 end
 end Qfx.Sess
